@@ -47,13 +47,20 @@ class St:
             os.symlink(trace, os.path.join(d, "trace.ndjson"))
         cmd = ["tlc", "-workers", str(workers), "-metadir", os.path.join(d, "meta"), "-config", cfg] + list(extra) + [module + ".tla"]
         env = dict(os.environ)
-        env["JAVA_TOOL_OPTIONS"] = ("-Xss64m " + java).strip()
+        env["JAVA_TOOL_OPTIONS"] = ("-Xss64m -XX:ParallelGCThreads=%d " % max(2, min(workers, 4)) + java).strip()
         t = time.time()
-        try:
-            r = subprocess.run(cmd, cwd=d, capture_output=True, text=True, timeout=timeout, env=env)
-        except subprocess.TimeoutExpired:
-            subprocess.run(["pkill", "-f", "tlc2.TL[C].*" + re.escape(d)], capture_output=True)
-            raise vlib.MachineryError("TLC timeout (%ss) on %s/%s" % (timeout, module, cfg))
+        for attempt in (1, 2):
+            try:
+                r = subprocess.run(cmd, cwd=d, capture_output=True, text=True, timeout=timeout, env=env)
+            except subprocess.TimeoutExpired:
+                subprocess.run(["pkill", "-f", "tlc2.TL[C].*-metadir " + re.escape(os.path.join(d, "meta")) + " "], capture_output=True)
+                raise vlib.MachineryError("TLC timeout (%ss) on %s/%s" % (timeout, module, cfg))
+            # killed from outside (signal) without a TLC verdict: run it once more
+            if attempt == 1 and (r.returncode < 0 or r.returncode in (137, 143)) and "Error:" not in r.stdout:
+                vlib.log("TLC %s/%s was killed (rc=%d), running it again" % (module, cfg, r.returncode))
+                shutil.rmtree(os.path.join(d, "meta"), ignore_errors=True)
+                continue
+            break
         shutil.rmtree(os.path.join(d, "meta"), ignore_errors=True)
         return r.returncode, r.stdout + r.stderr, time.time() - t
 
@@ -87,7 +94,7 @@ def mc(st, cfg, expect_ok=True, workers=4, timeout=1500):
     if not expect_ok:
         m = re.search(r"Invariant (\S+) is violated", out)
         rec["expected_counterexample"] = m.group(1) if m else None
-        if ok or not m:
+        if ok or not m or m.group(1) != "PopSafe":
             raise vlib.MachineryError("MC_Admission/%s was expected to produce a counterexample:\n%s" % (cfg, out[-3000:]))
     return rec
 
@@ -137,8 +144,8 @@ def sub_blocklist(ctx, st):
     seed = str(ctx.seed)
     jobs = [("bl_lists", ["-mode", "lists", "-in", lists, "-bits", str(bits), "-seed", seed], 1.0),
             ("bl_concrete", ["-mode", "concrete", "-seed", seed], 3.0),
-            ("bl_random", ["-mode", "blrandom", "-seed", seed, "-n", str(ctx.pick(3, 12)), "-rules", str(ctx.pick(1500, 4000)),
-                           "-queries", str(ctx.pick(250, 600))], 100.0),
+            ("bl_random", ["-mode", "blrandom", "-seed", seed, "-n", str(ctx.pick(3, 8)), "-rules", str(ctx.pick(1500, 3000)),
+                           "-queries", str(ctx.pick(250, 400))], 100.0),
             ("misc", ["-mode", "misc", "-seed", seed, "-n", str(ctx.pick(200, 2000))], 1.0)]
     for name, args, w in jobs:
         p = ctx.path("tr_%s.ndjson" % name)
@@ -151,7 +158,7 @@ def sub_queue(ctx, st):
     seed = str(ctx.seed)
     # (generator config, capacities, number of simulated behaviours or 0 = exhaustive enumeration)
     plan = ctx.pick([("MC_AdmissionGen_ops2.cfg", "1,2", 0), ("MC_AdmissionGen_ops3c.cfg", "1,2", 0), ("MC_AdmissionGen_sim8.cfg", "2,3", 25)],
-                    [("MC_AdmissionGen_ops3w.cfg", "2", 0), ("MC_AdmissionGen_ops4c.cfg", "1,2,3", 0), ("MC_AdmissionGen_sim12.cfg", "1,2,3", 150)])
+                    [("MC_AdmissionGen_ops3w.cfg", "2", 0), ("MC_AdmissionGen_ops4c.cfg", "1,3", 0), ("MC_AdmissionGen_sim12.cfg", "2,3", 150)])
     for i, (cfg, caps, nsim) in enumerate(plan):
         sp = ctx.path("gen_ops%d.ndjson" % i)
         g = gen(st, cfg, sp, simulate=nsim, depth=13)   # every behaviour ends when K operations are reached
@@ -160,7 +167,7 @@ def sub_queue(ctx, st):
         drive(st, ["-mode", "qscripts", "-in", sp, "-caps", caps, "-seed", seed, "-out", p])
         st.add_trace("queue", "q_scripts%d" % i, p, 1.0)
     p = ctx.path("tr_q_random.ndjson")
-    drive(st, ["-mode", "qrandom", "-seed", seed, "-n", str(ctx.pick(300, 3000)), "-ops", str(ctx.pick(40, 60)), "-out", p])
+    drive(st, ["-mode", "qrandom", "-seed", seed, "-n", str(ctx.pick(300, 2000)), "-ops", str(ctx.pick(40, 60)), "-out", p])
     st.add_trace("queue", "q_random", p, 1.2)
 
 
@@ -271,8 +278,8 @@ def judge_chunk(st, idx, chunk, cfg="Trace_Admission.cfg"):
         if 0 <= pos < n:
             k = max(i for i, b in enumerate(starts) if b <= pos)
             where = "%s: %s" % (chunk["segs"][k].trace["name"], chunk["segs"][k].lines[pos - starts[k]][:400])
-        raise vlib.MachineryError("trace not explained by the specification (driver/spec mismatch, not a verdict) at line %d of chunk %d\n%s\n%s"
-                                  % (pos + 1, idx, where, out[-3000:]))
+        raise vlib.MachineryError("trace not explained by the specification (driver/spec mismatch, not a verdict) at line %d of chunk %d (tlc rc=%d)\n%s\n%s"
+                                  % (pos + 1, idx, rc, where, out[-3000:]))
     if dist != n:
         raise vlib.MachineryError("chunk %d: %d lines but %d states" % (idx, n, dist))
     viols = []
